@@ -148,7 +148,8 @@ package proto
 //@     invariant pa_prefix(old(pr.nodes), pr.nodes)
 //@     invariant forall r NodeRefT :: {pr.indices[r]} old(has(pr.indices, r)) ==> has(pr.indices, r) && pr.indices[r] == old(pr.indices[r])
 //@     invariant pr.indexOffset <= parentIndex && parentIndex < pr.indexOffset + len(pr.nodes)
-//@     invariant pa_slot(pr.nodes, pr.indexOffset) && pr.nodes[parentIndex - pr.indexOffset].Ref == NodeRef(i - 1, parent)
+//@     invariant pr.nodes[parentIndex - pr.indexOffset].Ref == NodeRef(i - 1, parent)
+//@     invariant pa_slot(pr.nodes, pr.indexOffset)
 //@     invariant forall k :: {pr.nodes[k]} old(len(pr.nodes)) <= k && k < len(pr.nodes) ==> pr.nodes[k].Ref.Root == parent && pr.nodes[k].ParentRoot == parent
 //@     invariant parentSlot < i && i <= slot && len(pr.nodes) - old(len(pr.nodes)) <= i - parentSlot - 1
 //@     invariant !has(pr.indices, NodeRef(slot, parent))
